@@ -13,7 +13,9 @@ func init() { runners["C15"] = runC15 }
 var c15Values = []string{"a", "a", "a-1", "a-1-1", "a-2", "A", " a ", "a b", "a_b", "a-b", "", "   ", "!!!", "あ", "é", "heading", "heading-1", "id", "1", "-", "--", "x\x80y", "x\xe3y", "\xff",
 	strings.Repeat("long-heading-text-", 5), strings.Repeat("z", 70), "b", "b", "B", "\tb\n", "c d e", "C D E", "c-d-e",
 	// numbered and prefixed headings: the same slug behind different digit / hyphen / punctuation prefixes
-	"1 a", "2 a", "1. a", "-a", "1-a", "a 1", "1 heading", "2. heading", "2024 b", "10 b", "b 10", "b-10", "1 1", "1-1", "-1", "_a", "a_", "*a*", "`a`", "[a](u)", "a&amp;b", "a&b", "&#97;", "\\a", "a\\-1", "<b>a</b>", "a<!--x-->", "ａ", "a\u00a0b", "a\u3000b", "İ", "ǅ", "ß", "SS", "ss"}
+	"1 a", "2 a", "1. a", "-a", "1-a", "a 1", "1 heading", "2. heading", "2024 b", "10 b", "b 10", "b-10", "1 1", "1-1", "-1", "_a", "a_", "*a*", "`a`", "[a](u)", "a&amp;b", "a&b", "&#97;", "\\a", "a\\-1", "<b>a</b>", "a<!--x-->", "ａ", "a\u00a0b", "a\u3000b", "İ", "ǅ", "ß", "SS", "ss",
+	// attribute-like text (the attribute syntax is not enabled in these configurations)
+	"x {#notes}", "y {#notes}", "{#notes}", "z {.c}", "w {#notes .c k=v}", "v {#a} {#b}"}
 
 func headingIDs(out []byte) (ids []string, missing int, errs []string) {
 	toks, errs := scanHTML(out)
